@@ -106,7 +106,8 @@ E_EXCS = ["InjectedFault", "MemoryError", "KeyboardInterrupt", "OSError"]
 
 
 def gen_target(rng, kind: str) -> dict:
-    name = rng.choice(["report", "report.v2", "out put", "tbl-01", "r", "noext", ".hidden"])
+    name = rng.choice(["report", "report.v2", "out put", "tbl-01", "r", "noext", ".hidden", "résumé", "表_14_1",
+                       "REPORT", "a'b", "x;y", "50%", "-dash"])
     suffix = SUFFIX[kind]
     r = rng.random()
     if r < 0.12:
